@@ -80,6 +80,9 @@ func (g *ogen) text() onode {
 func (g *ogen) print() onode {
 	r := g.r
 	k9 := r.Intn(9)
+	if g.named && g.flavor == "isset" && r.Chance(25) {
+		k9 = 8
+	}
 	if k9 == 8 && !g.named {
 		k9 = r.Intn(8)
 	}
@@ -87,7 +90,7 @@ func (g *ogen) print() onode {
 	case 8:
 		// the printed form of a value with a String / Error method is that method's text, whatever the
 		// kind of the value; it is data like any other and goes through the escaper once
-		if r.Chance(40) {
+		if r.Chance(40) || g.flavor == "isset" && r.Chance(60) {
 			// kinds the model has no value for: arrays (sliced through a copy when not addressable),
 			// channels, nil funcs; every printed value goes through the escaper on its own
 			type gc struct{ src, out string }
@@ -98,8 +101,17 @@ func (g *ogen) print() onode {
 				{"{{range i, v := arr[1:3]}}{{i}}{{v}}{{end}}", g.E(0) + g.E(0) + g.E(1) + g.E(7)},
 {"{{ isset(nf) }}", g.E("false")}, {"{{ isset(hold.F) }}", g.E("false")},
 				{"{{if nf}}DEAD{{else}}n{{end}}", "n"},
+				// isset is false, never a failure, whatever goes wrong while its argument is evaluated
+				{"{{ isset(mi[li]) }}", g.E("false")}, {"{{ isset(mi[m]) }}", g.E("false")}, {"{{ isset(hold.Boom().Arr) }}", g.E("false")}, {"{{ isset(hold.Boom()) }}", g.E("true")},
+				{"{{if isset(ia, hold.Boom().x)}}DEAD{{else}}n{{end}}", "n"}, {"{{ mi[\"a\"] }}", g.E(11)}, {"{{ isset(mi[\"a\"]) }}", g.E("true")}, {"{{ isset(mi[arr]) }}", g.E("false")},
+				{"{{ isset(arr[5]) }}", g.E("false")}, {"{{ isset(nf(\"a\")) }}", g.E("true")}, {"{{ isset(mi[nf]) }}", g.E("false")},
 			}
 			c := cs[r.Intn(len(cs))]
+			if g.flavor == "isset" {
+				for try := 0; try < 6 && !strings.Contains(c.src, "isset"); try++ {
+					c = cs[r.Intn(len(cs))]
+				}
+			}
 			return onode{src: c.src, out: c.out, failOff: -1}
 		}
 		k := r.Pick([]string{"int", "bool", "float", "str", "u8", "struct", "pint", "err"})
@@ -204,7 +216,7 @@ func (g *ogen) failing() onode {
 		"{{ m[n] }}", "{{ st[n] }}", "{{ li[n] }}", "{{ ms[n].Name }}", "{{ m[st.I] }}", "{{ li[1:4] }}", "{{ li[:5] }}", "{{ ls[0:4] }}", "{{ len(li[:4]) }}", "{{ li[4:] }}", "{{range li[2:4]}}x{{end}}", "{{ li[3] }}", "{{ ls[3] }}"})
 	if g.named && g.r.Chance(35) {
 		act = g.r.Pick([]string{"{{ arr[0:4] }}", "{{ arr[3] }}", "{{ arr[2:1] }}", "{{ parr[0:1] }}", "{{ nf(\"a\") }}", "{{ \"a\" | nf }}", "{{ hold.F(1) }}", "{{ njf(1) }}", "{{ 1 | njf }}",
-			"{{range sch}}x{{end}}", "{{range k, v := sch}}x{{end}}", "{{ ia[0:1] }}", "{{ m[0:1] }}", "{{ st[0:1] }}", "{{ n[0:1] }}", "{{ t[:] }}"})
+			"{{range sch}}x{{end}}", "{{range k, v := sch}}x{{end}}", "{{ mi[li] }}", "{{ mi[m] }}", "{{ mi[nf] }}", "{{ mi[hold] }}", "{{ x9, ok9 := mi[ls] }}", "{{ ia[0:1] }}", "{{ m[0:1] }}", "{{ st[0:1] }}", "{{ n[0:1] }}", "{{ t[:] }}"})
 	}
 	return onode{src: act, out: "", failOff: 0}
 }
@@ -597,7 +609,7 @@ func genOracleProgram(r *h.Rand, flavor string) (*prog, *sx.Sexp) {
 		Add(bind("el", vSliceI())).Add(bind("li", vSliceT(vInt(3), vInt(0), vInt(7)))).Add(bind("ls", vSliceT(vStr("a<"), vStr(""), vStr("b")))).
 		Add(bind("m", vMapI("k", vStr("v")))).Add(bind("mn", vMapI("p", vPtr("T1", nil), "m", nilMapI(), "s", nilSliceI(), "i", vNil(), "v", vInt(1)))).Add(bind("mz", vMapI("k", vInt(0)))).Add(bind("me", vMapI("", vStr("x"), "k", vStr("")))).
 		Add(bind("ms", vMapT("a", vT2("na<", 1, true), "b", vT2("nb", 2, false), "c", vT2("", 0, false)))).Add(bind("st", vT1(5, "B<", vSliceI(vInt(1)), vMapI("k", vInt(1)), vPtr("T1", inner), vNil())))
-	g.named = r.Chance(30)
+	g.named = r.Chance(30) || flavor == "isset" && r.Chance(30)
 	named := func(k string, v *sx.Sexp) *sx.Sexp { return sx.L(sx.A("named"), sx.A(k), v) }
 	vars.Add(bind("nv_int", named("int", vInt(3)))).Add(bind("nv_pint", named("pint", vInt(3)))).Add(bind("nv_bool", named("bool", vBool(true)))).
 		Add(bind("nv_float", named("float", vFloat(1.5)))).Add(bind("nv_str", named("str", vStr("s'")))).Add(bind("nv_u8", named("u8", vInt(7)))).
@@ -605,7 +617,7 @@ func genOracleProgram(r *h.Rand, flavor string) (*prog, *sx.Sexp) {
 	gov := func(k string) *sx.Sexp { return sx.L(sx.A("goval"), sx.A(k)) }
 	if g.named {
 		vars.Add(bind("arr", gov("arr3"))).Add(bind("parr", gov("parr3"))).Add(bind("nf", gov("nilfunc"))).Add(bind("njf", gov("niljfunc"))).
-			Add(bind("sch", gov("sendch"))).Add(bind("rch", gov("recvch"))).Add(bind("hold", gov("holder")))
+			Add(bind("mi", gov("ifacemap"))).Add(bind("sch", gov("sendch"))).Add(bind("rch", gov("recvch"))).Add(bind("hold", gov("holder")))
 	}
 	vars.Add(bind("bu", vUint(9223372036854775808))).Add(bind("bv", vUint(18446744073709551615))).Add(bind("ub", vUint(1)))
 	// templates that exist but do not parse: including them is a failure, however it is spelled
